@@ -577,3 +577,10 @@ M("slc6-walk-ends-at-dead-greenlet", "C04", GL, "        while greenlet is not N
 _GC_OLD = "    with_block_info = analyze_with_blocks(frame.f_code)\n    frame_details = inspect_frame(frame)\n"
 M("glob1-gc-paused-no-finally", "C06", LL, _GC_OLD, "    with_block_info = analyze_with_blocks(frame.f_code)\n    gc.disable()\n    frame_details = inspect_frame(frame)\n    gc.enable()\n", "GLOB-1")
 T("glob1-twin-gc-paused-finally", "C06", LL, _GC_OLD, "    with_block_info = analyze_with_blocks(frame.f_code)\n    _was = gc.isenabled()\n    gc.disable()\n    try:\n        frame_details = inspect_frame(frame)\n    finally:\n        if _was:\n            gc.enable()\n", accept_analysis_error=True)
+
+# ---------------------------------------------------------------- OPC-9
+M("opc9-unpack-ex-swapped", "C08", LL, "                before = [next_target() for _ in range(insn.argval & 0xFF)]\n                rest = next_target()\n                after = [next_target() for _ in range(insn.argval >> 8)]", "                before = [next_target() for _ in range(insn.argval >> 8)]\n                rest = next_target()\n                after = [next_target() for _ in range(insn.argval & 0xFF)]", "OPC-9")
+T("opc9-twin-mod-div", "C08", LL, "                before = [next_target() for _ in range(insn.argval & 0xFF)]\n                rest = next_target()\n                after = [next_target() for _ in range(insn.argval >> 8)]", "                n_after, n_before = divmod(insn.argval, 256)\n                before = [next_target() for _ in range(n_before)]\n                rest = next_target()\n                after = [next_target() for _ in range(n_after)]")
+
+# ---------------------------------------------------------------- OPC-10
+M("opc10-push-before-queue", "C08", LL, "        if code[offs] in dis.hasjrel:\n            todo.append((offs + 2 + arg * jmul, stack[:]))\n", "        if code[offs] in dis.hasjrel and code[offs] in (op[\"SETUP_FINALLY\"], op[\"SETUP_WITH\"], op[\"SETUP_ASYNC_WITH\"]):\n            stack.append(offs + 2 + arg * jmul)\n        if code[offs] in dis.hasjrel:\n            todo.append((offs + 2 + arg * jmul, stack[:]))\n", ["OPC-10"], accept_analysis_error=True)
